@@ -51,8 +51,8 @@ theorem noneFrom_cons_self (a b : Pass) (qs : List Pass) (h : noneFrom a b (b ::
 theorem orderOk_core (cs : List Call) (h : orderOk cs = true) : coreOk (cs.map (·.pass)) = true := by
   simp only [orderOk, constraints, List.all_cons, List.all_nil, Bool.and_true, Bool.and_eq_true] at h
   simp only [coreOk, Bool.and_eq_true]
-  obtain ⟨_, _, h2, h3, h4, _⟩ := h
-  exact ⟨⟨h2, h3⟩, h4⟩
+  obtain ⟨_, _, h2, h3, h4, _, h6, _⟩ := h
+  exact ⟨⟨⟨h2, h3⟩, h4⟩, h6⟩
 
 /-! ### passes that do not touch what a default refers to -/
 
@@ -83,7 +83,8 @@ theorem live_map_surv (cls : List Cls) (c : Nat) (h : live cls c = true) :
   have : k.id = c := by simpa using hc
   simp [this]
 
-theorem fieldWf_reuse (cls : List Cls) (f : Field) (h : fieldWf cls f = true) :
+theorem fieldWf_reuse (cls : List Cls) (f : Field) (h : fieldWf cls f = true)
+    (hn : (match f.ty with | .copy _ => false | _ => true) = true) :
     fieldWf (cls.map (fun k => { k with id := surv cls k.id })) { f with ty := survTy cls f.ty } = true := by
   obtain ⟨ty, d⟩ := f
   cases ty with
@@ -91,13 +92,16 @@ theorem fieldWf_reuse (cls : List Cls) (f : Field) (h : fieldWf cls f = true) :
     simp only [fieldWf, Bool.and_eq_true] at h ⊢
     exact ⟨live_map_surv cls c h.1, h.2⟩
   | root r => simpa [fieldWf, survTy] using h
+  | copy c => simp at hn
 
-theorem wf_reuse (s : St) (h : wf s = true) : wf (reuseStep s) = true := by
+/-- `__reuse_model` keeps the invariant as long as no data type is an unregistered copy -/
+theorem wf_reuse (s : St) (h : wf s = true) (hn : noCopies s = true) : wf (reuseStep s) = true := by
   simp only [wf, Bool.and_eq_true, List.all_eq_true] at h
+  simp only [noCopies, List.all_eq_true] at hn
   simp only [wf, reuseStep, Bool.and_eq_true, List.all_eq_true, List.mem_map]
   constructor
   · rintro f ⟨g, hg, rfl⟩
-    exact fieldWf_reuse s.classes g (h.1 g hg)
+    exact fieldWf_reuse s.classes g (h.1 g hg) (hn g hg)
   · rintro r ⟨q, hq, rfl⟩
     exact live_map_surv s.classes q.target (h.2 q hq)
 
@@ -109,6 +113,7 @@ theorem fieldWf_collapse (cls : List Cls) (rs : List Root) (hr : ∀ r ∈ rs, l
   obtain ⟨ty, d⟩ := f
   cases ty with
   | enum c => simpa [collapseField] using h
+  | copy c => simpa [collapseField] using h
   | root r =>
     simp only [collapseField]
     cases hf : findRoot rs r with
@@ -124,11 +129,29 @@ theorem wf_collapse (s : St) (h : wf s = true) : wf (collapseStep s) = true := b
   rintro f ⟨g, hg, rfl⟩
   exact fieldWf_collapse s.classes s.roots h.2 g (h.1 g hg)
 
+theorem setRefField_ty (rs : List Root) (f : Field) : (setRefField rs f).ty = f.ty := by
+  obtain ⟨ty, d⟩ := f
+  cases ty with
+  | enum c => cases d <;> rfl
+  | copy c => cases d <;> rfl
+  | root r =>
+    cases d with
+    | none =>
+      simp only [setRefField]
+      cases findRoot rs r with
+      | none => rfl
+      | some rt =>
+        obtain ⟨i, t, dv⟩ := rt
+        cases dv <;> rfl
+    | raw v => rfl
+    | member c v => rfl
+
 theorem fieldWf_setRef (cls : List Cls) (rs : List Root) (f : Field) (h : fieldWf cls f = true) :
     fieldWf cls (setRefField rs f) = true := by
   obtain ⟨ty, d⟩ := f
   cases ty with
   | enum c => cases d <;> simpa [setRefField] using h
+  | copy c => cases d <;> simpa [setRefField] using h
   | root r =>
     cases d with
     | none =>
@@ -150,21 +173,54 @@ theorem wf_setRef (s : St) (h : wf s = true) : wf (setRefStep s) = true := by
   rintro f ⟨g, hg, rfl⟩
   exact fieldWf_setRef s.classes s.roots g (h.1 g hg)
 
-/-- every pass but the conversion keeps the invariant -/
-theorem wf_step (o : Opts) (p : Pass) (s : St) (hp : p ≠ .setDefaultEnumMember) (h : wf s = true) :
+/-- every pass but the conversion and the merge keeps the invariant -/
+theorem wf_step (o : Opts) (p : Pass) (s : St) (hp : p ≠ .setDefaultEnumMember) (hr : p ≠ .reuseModel) (h : wf s = true) :
     wf (step o p s) = true := by
   cases p with
-  | reuseModel =>
-    simp only [step]
-    split
-    · exact wf_reuse s h
-    · exact h
+  | reuseModel => exact absurd rfl hr
   | collapseRootModels =>
     simp only [step]
     split
     · exact wf_collapse s h
     · exact h
   | setReferenceDefaultValueToField => exact wf_setRef s h
+  | setDefaultEnumMember => exact absurd rfl hp
+  | _ => exact h
+
+theorem wf_step_reuse (o : Opts) (s : St) (h : wf s = true) (hn : noCopies s = true) : wf (step o .reuseModel s) = true := by
+  simp only [step]
+  split
+  · exact wf_reuse s h hn
+  · exact h
+
+/-! ### no copies yet -/
+
+theorem noCopies_reuse (s : St) (h : noCopies s = true) : noCopies (reuseStep s) = true := by
+  simp only [noCopies, List.all_eq_true] at h
+  simp only [noCopies, reuseStep, List.all_eq_true, List.mem_map]
+  rintro f ⟨g, hg, rfl⟩
+  have := h g hg
+  obtain ⟨ty, d⟩ := g
+  cases ty <;> simp_all [survTy]
+
+theorem noCopies_setRef (s : St) (h : noCopies s = true) : noCopies (setRefStep s) = true := by
+  simp only [noCopies, List.all_eq_true] at h
+  simp only [noCopies, setRefStep, List.all_eq_true, List.mem_map]
+  rintro f ⟨g, hg, rfl⟩
+  rw [setRefField_ty]
+  exact h g hg
+
+/-- every pass but the conversion and the fold keeps "no copies" -/
+theorem noCopies_step (o : Opts) (p : Pass) (s : St) (hp : p ≠ .setDefaultEnumMember) (hq : p ≠ .collapseRootModels)
+    (h : noCopies s = true) : noCopies (step o p s) = true := by
+  cases p with
+  | reuseModel =>
+    simp only [step]
+    split
+    · exact noCopies_reuse s h
+    · exact h
+  | collapseRootModels => exact absurd rfl hq
+  | setReferenceDefaultValueToField => exact noCopies_setRef s h
   | setDefaultEnumMember => exact absurd rfl hp
   | _ => exact h
 
@@ -192,37 +248,12 @@ theorem rest_inert (ps : List Pass)
   · intro e; exact h3 (e ▸ hq)
   · intro e; exact count_eq_zero_not_mem _ ps hc (e ▸ hq)
 
-/-- MAIN LEMMA: any pass list in which the conversion runs once and none of the three restructuring passes runs at or after it -/
-theorem run_good (o : Opts) (ho : o.sdem = true) :
-    ∀ (ps : List Pass) (s : St), wf s = true →
-      count .setDefaultEnumMember ps = 1 →
-      noneFrom .reuseModel .setDefaultEnumMember ps = true →
-      noneFrom .collapseRootModels .setDefaultEnumMember ps = true →
-      noneFrom .setReferenceDefaultValueToField .setDefaultEnumMember ps = true →
-      good (run o ps s) = true
-  | [], _, _, hc, _, _, _ => by simp [count] at hc
-  | p :: ps, s, hw, hc, h1, h2, h3 => by
-    by_cases hp : p = .setDefaultEnumMember
-    · subst hp
-      rw [count_cons_self] at hc
-      have hc0 : count .setDefaultEnumMember ps = 0 := by omega
-      have r1 := (noneFrom_cons_self _ _ ps h1).2
-      have r2 := (noneFrom_cons_self _ _ ps h2).2
-      have r3 := (noneFrom_cons_self _ _ ps h3).2
-      simp only [run, step, ho, if_true]
-      rw [run_inert o ps _ (rest_inert ps hc0 r1 r2 r3)]
-      exact good_sdem s hw
-    · rw [count_cons_ne _ _ _ hp] at hc
-      rw [noneFrom_cons_ne _ _ _ _ hp] at h1 h2 h3
-      simp only [run]
-      exact run_good o ho ps (step o p s) (wf_step o p s hp hw) hc h1 h2 h3
-
-/-! ### with --collapse-root-models: no field is left behind a root model, every default becomes a member -/
+/-! ### with --collapse-root-models: no field is left behind a root model -/
 
 def noRootFields (s : St) : Bool :=
   s.fields.all (fun f => match f.ty with
-    | .enum _ => true
-    | .root _ => false)
+    | .root _ => false
+    | _ => true)
 
 theorem noRoot_collapse (s : St) (hk : rootsKnown s = true) : noRootFields (collapseStep s) = true := by
   simp only [rootsKnown, List.all_eq_true] at hk
@@ -232,6 +263,7 @@ theorem noRoot_collapse (s : St) (hk : rootsKnown s = true) : noRootFields (coll
   obtain ⟨ty, d⟩ := g
   cases ty with
   | enum c => simp [collapseField]
+  | copy c => simp [collapseField]
   | root r =>
     simp only [collapseField]
     cases hf : findRoot s.roots r with
@@ -250,11 +282,8 @@ theorem noRoot_setRef (s : St) (h : noRootFields s = true) : noRootFields (setRe
   simp only [noRootFields, List.all_eq_true] at h
   simp only [noRootFields, setRefStep, List.all_eq_true, List.mem_map]
   rintro f ⟨g, hg, rfl⟩
-  have := h g hg
-  obtain ⟨ty, d⟩ := g
-  cases ty with
-  | enum c => cases d <;> simp [setRefField]
-  | root r => simp at this
+  rw [setRefField_ty]
+  exact h g hg
 
 theorem noRoot_collapseStep' (s : St) (h : noRootFields s = true) : noRootFields (collapseStep s) = true := by
   simp only [noRootFields, List.all_eq_true] at h
@@ -264,6 +293,7 @@ theorem noRoot_collapseStep' (s : St) (h : noRootFields s = true) : noRootFields
   obtain ⟨ty, d⟩ := g
   cases ty with
   | enum c => simp [collapseField]
+  | copy c => simp [collapseField]
   | root r => simp at this
 
 theorem noRoot_step (o : Opts) (p : Pass) (s : St) (hp : p ≠ .setDefaultEnumMember) (h : noRootFields s = true) :
@@ -291,6 +321,7 @@ theorem rootsKnown_reuse (s : St) (h : rootsKnown s = true) : rootsKnown (reuseS
   obtain ⟨ty, d⟩ := g
   cases ty with
   | enum c => simp [survTy]
+  | copy c => simp [survTy]
   | root r =>
     simp only [survTy]
     simp only [findRoot, Option.isSome_iff_exists] at this ⊢
@@ -312,23 +343,10 @@ theorem rootsKnown_setRef (s : St) (h : rootsKnown s = true) : rootsKnown (setRe
   simp only [rootsKnown, List.all_eq_true] at h
   simp only [rootsKnown, setRefStep, List.all_eq_true, List.mem_map]
   rintro f ⟨g, hg, rfl⟩
-  have := h g hg
-  obtain ⟨ty, d⟩ := g
-  cases ty with
-  | enum c => cases d <;> simp [setRefField]
-  | root r =>
-    cases d with
-    | none =>
-      simp only [setRefField]
-      cases hf : findRoot s.roots r with
-      | none => simp [hf] at this
-      | some rt =>
-        obtain ⟨i, t, dv⟩ := rt
-        cases dv <;> simp [hf]
-    | raw v => simpa [setRefField] using this
-    | member c v => simpa [setRefField] using this
+  rw [setRefField_ty]
+  exact h g hg
 
-/-- before the roots are folded, the passes keep "every root a field refers to is known" (`collapseStep` itself ends the phase) -/
+/-- before the roots are folded, the passes keep "every root a field refers to is known" -/
 theorem rootsKnown_step (o : Opts) (p : Pass) (s : St) (hp : p ≠ .setDefaultEnumMember) (hq : p ≠ .collapseRootModels)
     (h : rootsKnown s = true) : rootsKnown (step o p s) = true := by
   cases p with
@@ -343,7 +361,7 @@ theorem rootsKnown_step (o : Opts) (p : Pass) (s : St) (hp : p ≠ .setDefaultEn
   | _ => exact h
 
 theorem fieldAllMember_sdem (cls : List Cls) (f : Field) (h : fieldWf cls f = true)
-    (hn : (match f.ty with | .enum _ => true | .root _ => false) = true) : fieldAllMember cls (sdemField f) = true := by
+    (hn : (match f.ty with | .root _ => false | _ => true) = true) : fieldAllMember cls (sdemField f) = true := by
   obtain ⟨ty, d⟩ := f
   cases ty <;> cases d <;> simp_all [fieldWf, fieldAllMember, sdemField]
 
@@ -354,17 +372,24 @@ theorem allMember_sdem (s : St) (h : wf s = true) (hn : noRootFields s = true) :
   rintro f ⟨g, hg, rfl⟩
   exact fieldAllMember_sdem s.classes g (h.1 g hg) (hn g hg)
 
-/-- MAIN LEMMA under --collapse-root-models: either no field is behind a root any more, or the fold is still to come -/
-theorem run_allMember (o : Opts) (ho : o.sdem = true) (hcol : o.collapse = true) :
+/-! ### the run up to the conversion -/
+
+/-- MAIN LEMMA. Any pass list in which the conversion runs once, none of the three restructuring passes runs at or after
+it, and the merge of duplicates does not run after the fold of the roots: the run IS the conversion applied to a state that
+satisfies the invariant (every data type — registered or copied — refers to a live class, no member yet); and when the
+fold happens on the way (or no field was behind a root to begin with), no field of that state is behind a root. -/
+theorem run_factor (o : Opts) (ho : o.sdem = true) :
     ∀ (ps : List Pass) (s : St), wf s = true →
-      (noRootFields s = true ∨ (rootsKnown s = true ∧ count .collapseRootModels ps = 1)) →
+      ((noCopies s = true ∧ noneFrom .reuseModel .collapseRootModels ps = true) ∨ Pass.reuseModel ∉ ps) →
       count .setDefaultEnumMember ps = 1 →
       noneFrom .reuseModel .setDefaultEnumMember ps = true →
       noneFrom .collapseRootModels .setDefaultEnumMember ps = true →
       noneFrom .setReferenceDefaultValueToField .setDefaultEnumMember ps = true →
-      allMember (run o ps s) = true
+      ∃ s', run o ps s = sdemStep s' ∧ wf s' = true ∧
+        ((noRootFields s = true ∨ (o.collapse = true ∧ rootsKnown s = true ∧ count .collapseRootModels ps = 1)) →
+          noRootFields s' = true)
   | [], _, _, _, hc, _, _, _ => by simp [count] at hc
-  | p :: ps, s, hw, hph, hc, h1, h2, h3 => by
+  | p :: ps, s, hw, hd, hc, h1, h2, h3 => by
     by_cases hp : p = .setDefaultEnumMember
     · subst hp
       rw [count_cons_self] at hc
@@ -372,30 +397,67 @@ theorem run_allMember (o : Opts) (ho : o.sdem = true) (hcol : o.collapse = true)
       have r1 := (noneFrom_cons_self _ _ ps h1).2
       have r2 := (noneFrom_cons_self _ _ ps h2).2
       have r3 := (noneFrom_cons_self _ _ ps h3).2
-      have hn : noRootFields s = true := by
-        rcases hph with h | ⟨_, hcc⟩
+      refine ⟨s, ?_, hw, ?_⟩
+      · simp only [run, step, ho, if_true]
+        exact run_inert o ps _ (rest_inert ps hc0 r1 r2 r3)
+      · rintro (h | ⟨_, _, hcc⟩)
         · exact h
         · rw [count_cons_ne _ _ _ (by intro e; cases e)] at hcc
           rw [count_eq_zero_of_not_mem _ ps r2] at hcc
           omega
-      simp only [run, step, ho, if_true]
-      rw [run_inert o ps _ (rest_inert ps hc0 r1 r2 r3)]
-      exact allMember_sdem s hw hn
     · rw [count_cons_ne _ _ _ hp] at hc
       rw [noneFrom_cons_ne _ _ _ _ hp] at h1 h2 h3
       simp only [run]
-      refine run_allMember o ho hcol ps (step o p s) (wf_step o p s hp hw) ?_ hc h1 h2 h3
-      by_cases hq : p = .collapseRootModels
-      · subst hq
-        left
-        rcases hph with h | ⟨hk, _⟩
-        · exact noRoot_step o _ s hp h
-        · simp only [step, hcol, if_true]
-          exact noRoot_collapse s hk
-      · rcases hph with h | ⟨hk, hcc⟩
-        · left; exact noRoot_step o p s hp h
-        · right
-          rw [count_cons_ne _ _ _ hq] at hcc
-          exact ⟨rootsKnown_step o p s hp hq hk, hcc⟩
+      by_cases hr : p = .reuseModel
+      · -- the merge: only while no data type is a copy
+        subst hr
+        have hl : noCopies s = true ∧ noneFrom .reuseModel .collapseRootModels ps = true := by
+          rcases hd with ⟨hn, hnf⟩ | hnot
+          · rw [noneFrom_cons_ne _ _ _ _ (by intro e; cases e)] at hnf
+            exact ⟨hn, hnf⟩
+          · exact absurd (List.mem_cons_self ..) hnot
+        obtain ⟨s', hrun, hw', hnr⟩ := run_factor o ho ps (step o .reuseModel s) (wf_step_reuse o s hw hl.1)
+          (Or.inl ⟨noCopies_step o _ s hp (by intro e; cases e) hl.1, hl.2⟩) hc h1 h2 h3
+        refine ⟨s', hrun, hw', ?_⟩
+        rintro (h | ⟨hcol, hk, hcc⟩)
+        · exact hnr (Or.inl (noRoot_step o _ s hp h))
+        · rw [count_cons_ne _ _ _ (by intro e; cases e)] at hcc
+          exact hnr (Or.inr ⟨hcol, rootsKnown_step o _ s hp (by intro e; cases e) hk, hcc⟩)
+      · by_cases hq : p = .collapseRootModels
+        · -- the fold: from here on the merge must not run
+          subst hq
+          have hnot : Pass.reuseModel ∉ ps := by
+            rcases hd with ⟨_, hnf⟩ | hnot
+            · exact (noneFrom_cons_self _ _ ps hnf).2
+            · exact fun hm => hnot (List.mem_cons_of_mem _ hm)
+          obtain ⟨s', hrun, hw', hnr⟩ := run_factor o ho ps (step o .collapseRootModels s) (wf_step o _ s hp hr hw)
+            (Or.inr hnot) hc h1 h2 h3
+          refine ⟨s', hrun, hw', ?_⟩
+          rintro (h | ⟨hcol, hk, _⟩)
+          · exact hnr (Or.inl (noRoot_step o _ s hp h))
+          · refine hnr (Or.inl ?_)
+            simp only [step, hcol, if_true]
+            exact noRoot_collapse s hk
+        · have hd' : (noCopies (step o p s) = true ∧ noneFrom .reuseModel .collapseRootModels ps = true) ∨ Pass.reuseModel ∉ ps := by
+            rcases hd with ⟨hn, hnf⟩ | hnot
+            · rw [noneFrom_cons_ne _ _ _ _ hq] at hnf
+              exact Or.inl ⟨noCopies_step o p s hp hq hn, hnf⟩
+            · exact Or.inr (fun hm => hnot (List.mem_cons_of_mem _ hm))
+          obtain ⟨s', hrun, hw', hnr⟩ := run_factor o ho ps (step o p s) (wf_step o p s hp hr hw) hd' hc h1 h2 h3
+          refine ⟨s', hrun, hw', ?_⟩
+          rintro (h | ⟨hcol, hk, hcc⟩)
+          · exact hnr (Or.inl (noRoot_step o p s hp h))
+          · rw [count_cons_ne _ _ _ hq] at hcc
+            exact hnr (Or.inr ⟨hcol, rootsKnown_step o p s hp hq hk, hcc⟩)
+
+theorem coreOk_iff (ps : List Pass) (h : coreOk ps = true) :
+    count .setDefaultEnumMember ps = 1 ∧ count .collapseRootModels ps = 1 ∧
+    noneFrom .reuseModel .setDefaultEnumMember ps = true ∧
+    noneFrom .collapseRootModels .setDefaultEnumMember ps = true ∧
+    noneFrom .setReferenceDefaultValueToField .setDefaultEnumMember ps = true ∧
+    noneFrom .reuseModel .collapseRootModels ps = true := by
+  simp only [coreOk, Bool.and_eq_true, before_iff] at h
+  obtain ⟨⟨⟨⟨_, hc, h3⟩, ⟨_, _, h1⟩⟩, ⟨hcc, _, h2⟩⟩, ⟨_, _, h4⟩⟩ := h
+  exact ⟨hc, hcc, h1, h2, h3, h4⟩
 
 end Dcg.Proofs.ParsePasses
